@@ -27,6 +27,9 @@ def enc(v):
         return {'l': [enc(x) for x in v]}
     if isinstance(v, BaseException):
         return {'exc': type(v).__name__}
+    for _n, _c in CALLABLES.items():
+        if v is _c:
+            return {'callable': _n}
     return {'repr': repr(v)}
 
 
@@ -45,7 +48,12 @@ def dec(j):
             return tuple([dec(x) for x in j['t']])
         if 'l' in j:
             return [dec(x) for x in j['l']]
+        if 'callable' in j:
+            return CALLABLES[j['callable']]     # a value that happens to be callable (a class): a value like any other
     raise ValueError('bad value %r' % (j,))
+
+
+CALLABLES = {'list': list, 'dict': dict, 'int': int}
 
 
 def fbits(x):
@@ -163,6 +171,17 @@ def fn1(d):
         # instances without __eq__: equal only to themselves (Python only; outside the model's value domain)
         k = d[1]
         return lambda x: SENTINELS[(x // k) % 3]
+    if n == 'is_float':
+        return lambda x: isinstance(x, float)
+    if n == 'round_robin':
+        # a key mapper with a state of its own (a round-robin assigner): called once per item, in order (Python only)
+        k = d[1]
+        cnt = {'n': 0}
+
+        def rr(x):
+            cnt['n'] += 1
+            return (cnt['n'] - 1) % k
+        return rr
     if n == 'neint_of':
         k = d[1]
         return lambda x: _NeInt((x // k) % 3)
